@@ -274,6 +274,21 @@ func init() {
 			}
 		}
 		fmt.Printf("STAT boundary_cases %d\n", len(boundary))
+		// consecutive calls of ONE transport across the integer-width boundaries of the seqno: three calls issued one
+		// after the other carry s, s+1, s+2
+		for _, s0 := range []int{126, 254, 65534, 65535, 1<<32 - 2} {
+			frames := runSeqRun(c.t, s0, 3)
+			for k := 0; k < 3; k++ {
+				w := &wireCase{kind: "call", seq: s0 + k, method: knownMethods[0], arg: int64(k)}
+				c.note("call case=seqrun start=%d k=%d", s0, k)
+				c.op("wire %d %s", 1<<24, w.opText())
+				if k < len(frames) {
+					c.res("%x", frames[k])
+				} else {
+					c.res("NOWRITE")
+				}
+			}
+		}
 		for i := 0; i < c.n+len(boundary); i++ {
 			var w *wireCase
 			if i < len(boundary) {
@@ -426,6 +441,34 @@ func init() {
 		}
 		fmt.Printf("STAT oversize_cases %d\nSTAT fitting_cases %d\nSTAT multimap_readback %d\n", nOversize, nExact, nMulti)
 	}
+}
+
+// runSeqRun: n calls issued one after the other on one transport whose seqno counter starts at s0; the frames written.
+func runSeqRun(t *testing.T, s0 int, n int) (frames [][]byte) {
+	synctest.Test(t, func(t *testing.T) {
+		a, _ := newSimPair(0)
+		xa := NewTransport(a, quietLogFactory(), nil, nil, 1<<24).(*transport)
+		defer xa.Close()
+		ctx, cancel := context.WithCancel(context.Background())
+		defer cancel()
+		reflect.ValueOf(&xa.calls.seqid).Elem().SetInt(int64(s0))
+		cli := NewClient(xa, nil, nil)
+		done := make(chan error, n)
+		for k := 0; k < n; k++ {
+			k := k
+			go func() {
+				var res interface{}
+				done <- cli.Call(ctx, knownMethods[0], int64(k), &res, 0)
+			}()
+			synctest.Wait() // its frame is on the wire before the next call is issued
+		}
+		frames = a.Writes()
+		cancel()
+		for k := 0; k < n; k++ {
+			<-done
+		}
+	})
+	return frames
 }
 
 // boundaryCase: an uncompressed message of the given kind whose frame content is exactly `target` bytes long
